@@ -353,6 +353,11 @@ class Executor:
         cands = {c: d[fname] for c, d in self.reg.fields.items() if fname in d}
         if len(set(cands.values())) == 1:
             return self.tenv.parse(next(iter(cands.values())))
+        # same class family (common root) first
+        root = self.repo.mro(cname)[-1] if cname in self.repo.classes else None
+        fam = {c: t for c, t in cands.items() if root is not None and c in self.repo.subclasses.get(root, ())}
+        if fam and len(set(fam.values())) == 1:
+            return self.tenv.parse(next(iter(fam.values())))
         raise VCError(f'field {cname}.{fname} has no declared type (declare_fields)')
 
     def coerce(self, sv, ty, what='value'):
@@ -991,6 +996,19 @@ class Executor:
 
     def narrow(self, st, test, positive):
         """flow-sensitive narrowing for `x is None` / `x is not None` tests on a local name"""
+        # isinstance(x, C) on a local name: in the positive branch x has static class C
+        if positive and isinstance(test, ast.Call) and isinstance(test.func, ast.Name) and test.func.id == 'isinstance' \
+                and len(test.args) == 2 and isinstance(test.args[0], ast.Name) and isinstance(test.args[1], ast.Name) \
+                and test.args[0].id in st.vars and test.args[1].id in self.repo.classes:
+            v = st.vars[test.args[0].id]
+            cn = test.args[1].id
+            base = v.ty.args[0] if v.ty.kind == 'opt' else v.ty
+            if base.kind == 'ref' and self.repo.is_subclass(cn, base.args[0]) and cn != base.args[0]:
+                return st.setvar(test.args[0].id, SV(T.ref(cn), v.z))
+        if isinstance(test, ast.BoolOp) and isinstance(test.op, ast.And) and positive:
+            for sub in test.values:
+                st = self.narrow(st, sub, True)
+            return st
         if isinstance(test, ast.Compare) and len(test.ops) == 1 and isinstance(test.left, ast.Name) \
                 and isinstance(test.comparators[0], ast.Constant) and test.comparators[0].value is None \
                 and isinstance(test.ops[0], (ast.Is, ast.IsNot)) and test.left.id in st.vars:
